@@ -1,5 +1,5 @@
 //@ tu: libxcm/tp/tls/xcm_tp_utls.c
-//@ flags: --max-field-sensitivity-array-size 1024
+//@ flags: --max-field-sensitivity-array-size 700
 //@ enforce: get_proto
 //@ replace: xcm_tp_proto_by_name
 //@ props: C08
